@@ -14,9 +14,13 @@ import (
 	"context"
 	stdjson "encoding/json"
 	"fmt"
+	"math"
+	"math/rand"
 	"os"
 	"os/exec"
 	"reflect"
+	"regexp"
+	"sort"
 	"strconv"
 	"strings"
 	"time"
@@ -151,22 +155,11 @@ func runC13Child(o *Out) {
 		det["rule"] = rule
 		o.violation("C13", "encoder variants disagree: "+rule, det)
 	}
-	for ti := 0; ti < ntypes; ti++ {
-		t := tgType(r, 3, tgOpts{named: true})
-		if t.Kind() == reflect.Interface {
-			t = reflect.TypeOf(c01Wrap{})
-		}
-		v := reflect.New(t)
-		tgValue(r, v.Elem(), 0, []int{0, 20, 50}[ti%3], false)
-		if cls := tgKnownBadAnywhere(reflect.PtrTo(t), 0); cls != "" {
-			o.count("types_skipped_for_recorded_finding:"+cls, 1)
-			continue
-		}
-		if ti < skip {
-			continue
-		}
+	sr := rand.New(rand.NewSource(o.seed*1000003 + 0xA7)) // the option subsets draw from their own stream: the generated types stay the ones of the seed
+	// check: every rule of the property on one value (ti = its number in the run: progress, choice of the indentation)
+	check := func(t reflect.Type, v reflect.Value, ti int, source string) {
 		os.WriteFile(o.dir+"/progress", []byte(strconv.Itoa(ti)), 0o644)
-		o.current(map[string]string{"property": "C13", "type": t.String(), "value": c01Describe(t, v), "crash_class": c01CrashClass(t, v, 0)})
+		o.current(map[string]string{"property": "C13", "source": source, "type": clipN(t.String(), 600), "value": c01Describe(t, v), "crash_class": c01CrashClass(t, v, 0)})
 		arg := v.Elem().Interface()
 		base, err := c01Safe(func() ([]byte, error) { return gojson.Marshal(arg) })
 		o.count("values", 1)
@@ -181,7 +174,7 @@ func runC13Child(o *Out) {
 					report(t, v, name+" succeeds where Marshal fails", map[string]string{"marshal_error": err.Error()})
 				}
 			}
-			continue
+			return
 		}
 		cmp := func(rule string, got []byte, e error, want []byte) {
 			o.count("comparisons", 1)
@@ -271,7 +264,76 @@ func runC13Child(o *Out) {
 			got, e := c01Safe(func() ([]byte, error) { return gojson.MarshalIndent(wrapped, pi[0], pi[1]) })
 			cmp(fmt.Sprintf("MarshalIndent(%q,%q) of the value below interface{} (wrapping %d) = Indent(Marshal)", pi[0], pi[1], wi), got, e, want.Bytes())
 		}
+		// 8. subsets of the options on every entry point that takes them, against the composition of the single rules
+		c13OptionSubsets(o, sr, t, v, arg, base, report)
 	}
+	for ti := 0; ti < ntypes; ti++ {
+		t := tgType(r, 3, tgOpts{named: true})
+		if t.Kind() == reflect.Interface {
+			t = reflect.TypeOf(c01Wrap{})
+		}
+		v := reflect.New(t)
+		tgValue(r, v.Elem(), 0, []int{0, 20, 50}[ti%3], false)
+		if cls := tgKnownBadAnywhere(reflect.PtrTo(t), 0); cls != "" {
+			o.count("types_skipped_for_recorded_finding:"+cls, 1)
+			continue
+		}
+		if ti < skip {
+			continue
+		}
+		if c13CollidingInvalidKeys(v, 0) {
+			// (audit A7) two keys of one map that are not valid UTF-8 and are written as the same replacement characters come in no
+			// defined order (they compare equal, see C01 finding MapKeyInvalidUTF8Order): two encodings of the same value need not
+			// agree, and the rules below failed or not from run to run (seed 4: main.TgNamedMap{"\xed\xa0\x80":..., "\xf3\x80\x80":...})
+			o.count("values_left_out_for_keys_written_alike", 1)
+			continue
+		}
+		check(t, v, ti, "generated type")
+	}
+	// the shapes and sizes of C01's audit strata (c01.go: map key types, non-empty interfaces, embedding shapes, deep / long /
+	// wide values, marshaler payloads): the four interpreters and their helper twins on values the type grammar does not build
+	ar := rand.New(rand.NewSource(o.seed*1000003 + 0xA713))
+	var cases []c01AuditCase
+	cases = append(cases, c01AuditMapKeys(ar, o.tier)...)
+	cases = append(cases, c01AuditIfaces(ar, o.tier)...)
+	cases = append(cases, c01AuditEmbedded(ar, o.tier)...)
+	cases = append(cases, c01AuditSizes(ar, o.tier)...)
+	cases = append(cases, c01AuditPayloads(ar, o.tier)...)
+	n := ntypes
+	for _, c := range cases {
+		n++
+		t := c.v.Type().Elem()
+		if c.open != "" && os.Getenv("AUDIT_OPEN") != "1" || strings.HasSuffix(c.open, "(crash)") {
+			o.count("audit_open_defect_cases:"+c.open, 1)
+			continue
+		}
+		if n < skip || tgKnownBadAnywhere(reflect.PtrTo(t), 0) != "" || c01CrashClass(t, c.v, 0) != "" {
+			continue
+		}
+		if c.reaches != nil && c.reaches[0] != 0 {
+			continue // (the same value reached another way: C13 reaches it in its own ways)
+		}
+		if t.Kind() == reflect.Interface && (t.Implements(tgMarshalerIface) || t.Implements(tgTextMarshalerIface)) && os.Getenv("AUDIT_OPEN") != "1" {
+			// rule 6 takes the address of the interface variable: the unlisted defect PtrToMarshalerInterface of c01.go
+			o.count("audit_open_defect_cases:PtrToMarshalerInterface", 1)
+			continue
+		}
+		if sb, _ := stdjson.Marshal(c.v.Interface()); c.stratum == "payload" && (bytes.Contains(sb, []byte(`\u2028`)) || bytes.Contains(sb, []byte(`\u2029`))) {
+			// like encoding/json, the compaction of a MarshalJSON result escapes U+2028 / U+2029 only while HTML escaping is on: the
+			// rule "DisableHTMLEscape changes only < > &" is stated for what the encoder itself writes
+			o.count("audit_values_left_out_for_line_separators_in_marshaler_output", 1)
+			continue
+		}
+		if c01HasInvalidUTF8MapKey(c.v, 0) {
+			// keys that are not valid UTF-8 are ordered by their replacement characters (C01 finding MapKeyInvalidUTF8Order): two of them
+			// that are written alike come in no defined order, so two encodings of the same map need not agree
+			o.count("audit_values_left_out_for_invalid_utf8_keys", 1)
+			continue
+		}
+		o.count("audit_values:"+c.stratum, 1)
+		check(t, c.v, n, "audit stratum "+c.stratum+": "+c.name)
+	}
+	c13SpecialValues(o, r, n+1, skip, report)
 }
 
 // frozen classes of recorded findings for C13
@@ -317,7 +379,9 @@ func c13ModelCases(o *Out) {
 				p.Elem().Set(v)
 				arg = p.Interface()
 			}
-			got, err := c01Safe(func() ([]byte, error) { return gojson.MarshalIndentWithOption(arg, pi[0], pi[1], gojson.DisableHTMLEscape()) })
+			got, err := c01Safe(func() ([]byte, error) {
+				return gojson.MarshalIndentWithOption(arg, pi[0], pi[1], gojson.DisableHTMLEscape())
+			})
 			res := string(got)
 			if err != nil {
 				res = "ERR " + err.Error()
@@ -336,7 +400,9 @@ func c13ModelCases(o *Out) {
 		}
 		sch := &gojson.ColorScheme{Int: mk(marks[0], marks[1]), Uint: mk(marks[0], marks[1]), Float: mk(marks[0], marks[1]), String: mk(marks[2], marks[3]),
 			Bool: mk(marks[4], marks[5]), Null: mk(marks[6], marks[7]), ObjectKey: mk(marks[8], marks[9]), Binary: mk("B", "b")}
-		got, err := c01Safe(func() ([]byte, error) { return gojson.MarshalWithOption(v.Interface(), gojson.Colorize(sch), gojson.DisableHTMLEscape()) })
+		got, err := c01Safe(func() ([]byte, error) {
+			return gojson.MarshalWithOption(v.Interface(), gojson.Colorize(sch), gojson.DisableHTMLEscape())
+		})
 		res := string(got)
 		if err != nil {
 			res = "ERR " + err.Error()
@@ -396,4 +462,355 @@ func runC13(o *Out) {
 		n, _ := strconv.Atoi(string(b))
 		skip = n + 1
 	}
+}
+
+// ---- audit strata (A7) ----
+
+var c13ANSI = regexp.MustCompile("\x1b\\[[0-9;]*m")
+
+// c13RandomScheme: markers of random length and content inside the \x01 .. \x02 brackets c13StripMarkers removes; some kinds without colour.
+// No double quote in a marker: the sorted-map code finds the start of a coloured key by looking for the first quote (encoder.go
+// newMapKeyIter), so a header holding one changes the order of the members -- noted in the audit report, not generated
+func c13RandomScheme(r *rand.Rand) *gojson.ColorScheme {
+	mk := func() gojson.ColorFormat {
+		if r.Intn(5) == 0 {
+			return gojson.ColorFormat{}
+		}
+		w := func() string {
+			b := []byte{0x01}
+			for i := r.Intn(6); i > 0; i-- {
+				b = append(b, []string{"h", "f", "0", "12", ";", "[", "m", "]", ",", ":", "{", "}", "é", " ", "\\"}[r.Intn(15)]...)
+			}
+			return string(append(b, 0x02))
+		}
+		return gojson.ColorFormat{Header: w(), Footer: w()}
+	}
+	return &gojson.ColorScheme{Int: mk(), Uint: mk(), Float: mk(), Bool: mk(), String: mk(), Binary: mk(), ObjectKey: mk(), Null: mk()}
+}
+
+// c13OptionSubsets: a few random subsets of {indentation, DisableHTMLEscape, UnorderedMap, Colorize (empty / marker / default ANSI / random
+// scheme), Debug} on MarshalWithOption / MarshalIndentWithOption, Encoder.EncodeWithOption, MarshalContext / Encoder.EncodeContext.
+// Expected: Marshal's bytes with the HTML escapes spelled out (if disabled), indented by encoding/json.Indent (if indented), plus the
+// Encoder's newline; the colour markers removed first; under UnorderedMap the same members in any order.
+func c13OptionSubsets(o *Out, r *rand.Rand, t reflect.Type, v reflect.Value, arg interface{}, base []byte, report func(reflect.Type, reflect.Value, string, map[string]string)) {
+	hasStringTag := strings.Contains(c01Shape(t, v), ",string")
+	for k := 0; k < 3; k++ {
+		indent, noescape, unordered, debug := r.Intn(2) == 0, r.Intn(2) == 0, r.Intn(3) == 0, r.Intn(4) == 0
+		colour := r.Intn(5)          // 0 none, 1 empty scheme, 2 fixed markers, 3 default scheme, 4 random markers
+		entry := r.Intn(3)           // 0 Marshal(Indent)WithOption, 1 Encoder.EncodeWithOption, 2 MarshalContext / Encoder.EncodeContext
+		viaContext := r.Intn(2) == 0 // entry 2 without indentation: MarshalContext instead of Encoder.EncodeContext
+		viaSetter := r.Intn(2) == 0  // Encoder: SetEscapeHTML(false) instead of the option
+		pi := c13Indents[r.Intn(len(c13Indents))]
+		if pi[0] == "" && pi[1] == "" && entry != 0 {
+			pi = [2]string{"", " "} // Encoder.SetIndent("","") switches indentation off
+		}
+		useMarshalContext := entry == 2 && !indent && viaContext
+		viaSetter = viaSetter && entry != 0 && !useMarshalContext
+		if hasStringTag && colour > 2 {
+			colour = 2 // recorded finding ColorizeStringOptionEscapesMarkers: left to its frozen predicate (fixed marker scheme)
+		}
+		if unordered && indent && c13HasNonEmptyMap(v, 0) {
+			// found by this stratum on the unchanged library and not in KNOWN_FINDINGS.txt: with UnorderedMap the indenting
+			// interpreters write the members of a map one level too shallow ({\n"a": 1\n  } inside an object); runs with AUDIT_OPEN=1
+			o.count("audit_open_defect_cases:UnorderedMapIndentLosesMemberIndentation", 1)
+			if os.Getenv("AUDIT_OPEN") != "1" {
+				unordered = false
+			}
+		}
+		var opts []gojson.EncodeOptionFunc
+		var names []string
+		if noescape && !viaSetter {
+			opts = append(opts, gojson.DisableHTMLEscape())
+		}
+		if noescape {
+			names = append(names, "DisableHTMLEscape")
+		}
+		if unordered {
+			opts = append(opts, gojson.UnorderedMap())
+			names = append(names, "UnorderedMap")
+		}
+		strip := func(b []byte) []byte { return b }
+		switch colour {
+		case 1:
+			opts = append(opts, gojson.Colorize(&gojson.ColorScheme{}))
+			names = append(names, "Colorize(empty scheme)")
+		case 2:
+			opts = append(opts, gojson.Colorize(c13Scheme()))
+			names = append(names, "Colorize(markers)")
+			strip = c13StripMarkers
+		case 3:
+			opts = append(opts, gojson.Colorize(gojson.DefaultColorScheme))
+			names = append(names, "Colorize(default scheme)")
+			strip = func(b []byte) []byte { return c13ANSI.ReplaceAll(b, nil) }
+		case 4:
+			opts = append(opts, gojson.Colorize(c13RandomScheme(r)))
+			names = append(names, "Colorize(random markers)")
+			strip = c13StripMarkers
+		}
+		var dbg bytes.Buffer
+		if debug {
+			opts = append(opts, gojson.Debug(), gojson.DebugWith(&dbg))
+			names = append(names, "Debug")
+		}
+		want := base
+		if noescape {
+			want = c13UnescapeHTML(want)
+		}
+		if indent {
+			var w bytes.Buffer
+			if stdjson.Indent(&w, want, pi[0], pi[1]) != nil {
+				continue
+			}
+			want = w.Bytes()
+			names = append(names, fmt.Sprintf("indent(%q,%q)", pi[0], pi[1]))
+		}
+		var got []byte
+		var e error
+		entryName := ""
+		switch entry {
+		case 0:
+			if indent {
+				entryName = "MarshalIndentWithOption"
+				got, e = c01Safe(func() ([]byte, error) { return gojson.MarshalIndentWithOption(arg, pi[0], pi[1], opts...) })
+			} else {
+				entryName = "MarshalWithOption"
+				got, e = c01Safe(func() ([]byte, error) { return gojson.MarshalWithOption(arg, opts...) })
+			}
+		case 1, 2:
+			var b bytes.Buffer
+			enc := gojson.NewEncoder(&b)
+			if indent {
+				enc.SetIndent(pi[0], pi[1])
+			}
+			if noescape && viaSetter {
+				enc.SetEscapeHTML(false)
+			}
+			if entry == 1 {
+				entryName = "Encoder.EncodeWithOption"
+				_, e = c01Safe(func() ([]byte, error) { return nil, enc.EncodeWithOption(arg, opts...) })
+			} else if !useMarshalContext {
+				entryName = "Encoder.EncodeContext"
+				_, e = c01Safe(func() ([]byte, error) { return nil, enc.EncodeContext(context.Background(), arg, opts...) })
+			} else {
+				entryName = "MarshalContext"
+				var gb []byte
+				gb, e = c01Safe(func() ([]byte, error) { return gojson.MarshalContext(context.Background(), arg, opts...) })
+				b.Write(gb)
+				b.WriteByte('\n')
+			}
+			got = b.Bytes()
+			want = append(append([]byte(nil), want...), '\n')
+		}
+		o.count("option_subset_comparisons", 1)
+		o.count(fmt.Sprintf("option_subset_size_%d", len(names)), 1)
+		o.count("option_subset_entry:"+entryName, 1)
+		plain := strip(got)
+		ok := e == nil
+		if ok && unordered && indent {
+			ok = c13SameUnorderedLines(plain, want)
+		} else if ok && unordered {
+			ok = c13SameUnordered(bytes.TrimSuffix(plain, []byte("\n")), bytes.TrimSuffix(want, []byte("\n")))
+		} else if ok {
+			ok = bytes.Equal(plain, want)
+		}
+		if !ok {
+			rule := entryName + " with {" + strings.Join(names, ", ") + "} = the composition of the single rules on Marshal's bytes"
+			report(t, v, rule, map[string]string{"got": clipN(string(got), 300), "want": clipN(string(want), 300), "err": fmt.Sprint(e), "_got_full": string(got),
+				"got_at_difference": around(plain, firstDiff(plain, want)), "want_at_difference": around(want, firstDiff(plain, want))})
+		}
+	}
+}
+
+type c13RefInner struct {
+	A []int          `json:"a"`
+	M map[string]int `json:"m,omitempty"`
+}
+
+// c13SpecialValues: values some part of which cannot be encoded (non-finite floats, ill-formed json.Number, failing or ill-formed
+// marshalers, at any depth): every entry point and interpreter gives the same verdict, and a failed encode leaves nothing behind:
+// a reference value encoded right after it by the four interpreters gives the bytes it gave before
+func c13SpecialValues(o *Out, r *rand.Rand, first, skip int, report func(reflect.Type, reflect.Value, string, map[string]string)) {
+	n := 400
+	if o.tier == "thorough" {
+		n = 8000
+	}
+	ref := &TgRec{V: 1, Next: &TgRec{V: 2, I: map[string]interface{}{"b": []int{1}, "a": c13RefInner{A: []int{}, M: map[string]int{"z": 1, "y": 2}}}, Kids: []TgRec{{V: 4}, {V: 5, Next: &TgRec{V: 6}}}},
+		M: map[string]TgRec{"k": {V: 3, I: "<s>"}}}
+	type path struct {
+		name string
+		f    func(v interface{}) ([]byte, error)
+	}
+	paths := []path{
+		{"Marshal", func(v interface{}) ([]byte, error) { return gojson.Marshal(v) }},
+		{"MarshalIndent", func(v interface{}) ([]byte, error) { return gojson.MarshalIndent(v, ">", "  ") }},
+		{"MarshalNoEscape", func(v interface{}) ([]byte, error) { return gojson.MarshalNoEscape(v) }},
+		{"MarshalContext", func(v interface{}) ([]byte, error) { return gojson.MarshalContext(context.Background(), v) }},
+		{"Colorize", func(v interface{}) ([]byte, error) { return gojson.MarshalWithOption(v, gojson.Colorize(c13Scheme())) }},
+		{"MarshalIndent+Colorize", func(v interface{}) ([]byte, error) {
+			return gojson.MarshalIndentWithOption(v, "", "\t", gojson.Colorize(gojson.DefaultColorScheme))
+		}},
+		{"UnorderedMap", func(v interface{}) ([]byte, error) { return gojson.MarshalWithOption(v, gojson.UnorderedMap()) }},
+		{"Debug", func(v interface{}) ([]byte, error) {
+			var dbg bytes.Buffer
+			return gojson.MarshalWithOption(v, gojson.Debug(), gojson.DebugWith(&dbg))
+		}},
+		{"Encoder", func(v interface{}) ([]byte, error) {
+			var b bytes.Buffer
+			err := gojson.NewEncoder(&b).Encode(v)
+			return b.Bytes(), err
+		}},
+		{"Encoder+SetIndent", func(v interface{}) ([]byte, error) {
+			var b bytes.Buffer
+			e := gojson.NewEncoder(&b)
+			e.SetIndent("", " ")
+			err := e.Encode(v)
+			return b.Bytes(), err
+		}},
+	}
+	refWant := make([][]byte, len(paths))
+	for i, p := range paths {
+		if p.name == "UnorderedMap" {
+			continue // (its bytes are not determined)
+		}
+		b, err := c01Safe(func() ([]byte, error) { return p.f(ref) })
+		if err != nil {
+			o.violation("C13", "the reference value cannot be encoded", map[string]string{"path": p.name, "err": err.Error()})
+			return
+		}
+		refWant[i] = append([]byte(nil), b...)
+	}
+	for i := 0; i < n; i++ {
+		t := tgType(r, 3, tgOpts{named: true})
+		if t.Kind() == reflect.Interface {
+			t = reflect.TypeOf(c01Wrap{})
+		}
+		v := reflect.New(t)
+		tgValue(r, v.Elem(), 0, []int{0, 20, 50}[i%3], true)
+		c03Fill(r, v.Elem(), 0)
+		if tgKnownBadAnywhere(reflect.PtrTo(t), 0) != "" || c01CrashClass(t, v, 0) != "" || first+i < skip {
+			continue
+		}
+		os.WriteFile(o.dir+"/progress", []byte(strconv.Itoa(first+i)), 0o644)
+		o.current(map[string]string{"property": "C13", "source": "special values", "type": clipN(t.String(), 600), "value": c01Describe(t, v), "crash_class": c01CrashClass(t, v, 0)})
+		arg := v.Elem().Interface()
+		_, err := c01Safe(func() ([]byte, error) { return gojson.Marshal(arg) })
+		if err == nil && i%3 != 0 {
+			// the value can be encoded: the failure comes behind it, inside a map inside a slice inside a map, when part of the output
+			// is written and the frames of the value have been used
+			bad := []interface{}{math.NaN(), float32(math.Inf(1)), stdjson.Number("1x"), TgMErr{Fail: true}, make(chan int), C03MBytes{B: "[1,"}}[r.Intn(6)]
+			arg = map[string]interface{}{"a": arg, "m": []interface{}{arg, map[string]interface{}{"k": arg, "z": bad}}}
+			_, err = c01Safe(func() ([]byte, error) { return gojson.Marshal(arg) })
+			if err == nil {
+				report(t, v, "a value that cannot be encoded is encoded", map[string]string{"bad": fmt.Sprintf("%#v", bad)})
+			}
+		}
+		o.count("special_values", 1)
+		if err != nil {
+			o.count("special_values_refused", 1)
+		}
+		for pi, p := range paths[1:] {
+			_, e := c01Safe(func() ([]byte, error) { return p.f(arg) })
+			o.count("special_verdict_comparisons", 1)
+			if (e != nil) != (err != nil) {
+				report(t, v, fmt.Sprintf("%s and Marshal give different verdicts", p.name), map[string]string{"err": fmt.Sprint(e), "marshal_error": fmt.Sprint(err)})
+			}
+			if e == nil {
+				continue
+			}
+			// right after the failure: the reference value through the same interpreter and through the plain one
+			for _, qi := range []int{pi + 1, 0} {
+				if refWant[qi] == nil {
+					continue
+				}
+				got, e2 := c01Safe(func() ([]byte, error) { return paths[qi].f(ref) })
+				o.count("reference_encodes_after_a_failure", 1)
+				if e2 != nil || !bytes.Equal(got, refWant[qi]) {
+					report(t, v, fmt.Sprintf("after a failed %s the reference value encodes differently with %s", p.name, paths[qi].name),
+						map[string]string{"got": clipN(string(got), 300), "want": clipN(string(refWant[qi]), 300), "err": fmt.Sprint(e2)})
+				}
+			}
+		}
+	}
+}
+
+// c13SameUnorderedLines: two indented texts (any prefix) hold the same lines up to the order of members: the same multiset of lines once
+// the separating commas are taken off, and the same length
+func c13SameUnorderedLines(a, b []byte) bool {
+	if len(a) != len(b) {
+		return false
+	}
+	lines := func(x []byte) []string {
+		ls := strings.Split(string(x), "\n")
+		for i := range ls {
+			ls[i] = strings.TrimSuffix(ls[i], ",")
+		}
+		sort.Strings(ls)
+		return ls
+	}
+	return reflect.DeepEqual(lines(a), lines(b))
+}
+
+func c13HasNonEmptyMap(v reflect.Value, depth int) bool {
+	if depth > 40 || !v.IsValid() {
+		return depth > 40
+	}
+	switch v.Kind() {
+	case reflect.Ptr, reflect.Interface:
+		return !v.IsNil() && c13HasNonEmptyMap(v.Elem(), depth+1)
+	case reflect.Map:
+		return v.Len() > 0
+	case reflect.Slice, reflect.Array:
+		for i := 0; i < v.Len(); i++ {
+			if c13HasNonEmptyMap(v.Index(i), depth+1) {
+				return true
+			}
+		}
+	case reflect.Struct:
+		for i := 0; i < v.NumField(); i++ {
+			if c13HasNonEmptyMap(v.Field(i), depth+1) {
+				return true
+			}
+		}
+	}
+	return false
+}
+
+// c13CollidingInvalidKeys: some map in the value has two different string keys that are the same once every byte that is not
+// valid UTF-8 is replaced by U+FFFD
+func c13CollidingInvalidKeys(v reflect.Value, depth int) bool {
+	if depth > 40 || !v.IsValid() {
+		return false
+	}
+	switch v.Kind() {
+	case reflect.Ptr, reflect.Interface:
+		return !v.IsNil() && c13CollidingInvalidKeys(v.Elem(), depth+1)
+	case reflect.Map:
+		seen := map[string]bool{}
+		it := v.MapRange()
+		for it.Next() {
+			if it.Key().Kind() == reflect.String {
+				k := string([]rune(it.Key().String()))
+				if seen[k] {
+					return true
+				}
+				seen[k] = true
+			}
+			if c13CollidingInvalidKeys(it.Value(), depth+1) {
+				return true
+			}
+		}
+	case reflect.Slice, reflect.Array:
+		for i := 0; i < v.Len(); i++ {
+			if c13CollidingInvalidKeys(v.Index(i), depth+1) {
+				return true
+			}
+		}
+	case reflect.Struct:
+		for i := 0; i < v.NumField(); i++ {
+			if c13CollidingInvalidKeys(v.Field(i), depth+1) {
+				return true
+			}
+		}
+	}
+	return false
 }
